@@ -194,6 +194,17 @@ def decFh (fhMax fhLen : Nat) (bs : Bytes) : Option (Nat × Bytes) :=
     else if len ≠ fhLen then none
     else decU64 r
 
+/-- what is left in the stream after xdrDecodeFileHandle returned (value or refusal): a refused wrong-size handle
+    (length ≤ the maximum, ≠ 8) is skipped with its padding so that the stream stays in sync; an over-limit length
+    is refused before anything more is read; a short stream is consumed to its end (io.ReadFull) -/
+def decFhRest (fhMax fhLen : Nat) (bs : Bytes) : Bytes :=
+  match decU32 bs with
+  | none => []
+  | some (len, r) =>
+    if len > fhMax then r
+    else if len ≠ fhLen then (if len > 0 then r.drop ((len + 3) / 4 * 4) else r)
+    else r.drop 8
+
 def decFhAllocs (fhMax fhLen : Nat) (bs : Bytes) : List Nat :=
   match decU32 bs with
   | none => []
